@@ -795,6 +795,40 @@ static Instance churn_inst(const std::string &name, bool all_classes) {
 	return inst;
 }
 
+// Whole slabs of live blocks: for every size class one more block than a slab holds is allocated (the first slab is filled
+// to its very last object - the one at the start of the slab, next to the pool's own header - and a second one is opened),
+// every block is written in full, then every other block is freed, the gaps are refilled, and everything is freed again.
+// Every oracle of the harness runs on the way (blocks disjoint and inside mapped memory, contents, poison state, footprint).
+template<class Cfg>
+static Instance fill_inst(const std::string &name, size_t max_per_slab) {
+	Instance inst; inst.name = name;
+	inst.run = [=](const std::vector<CrashInfo> &cr) {
+		Enumerator E(name, "C01", cr);
+		SlabHarness<Cfg> h(1 << 20, 0, 0, {});
+		h.res = &E.res;
+		E.default_prop = h.prop();
+		size_t prev = 0;
+		for(auto &kv : h.per_slab) {
+			size_t cls = kv.first, per = kv.second, lo = prev + 1; prev = cls;
+			if(per > max_per_slab) continue;
+			E.eval("class " + std::to_string(cls) + ": " + std::to_string(per + 1) + " live blocks", "slab.fill-class", [&] {
+				h.reset();
+				for(size_t i = 0; i <= per; i++) h.do_alloc((i & 1) ? cls : lo, false, -1);
+				h.check_state();
+				for(size_t i = 0; i + 1 < h.live.size(); i++) h.do_free((uint32_t)i, i & 1);     // (erasing shifts the rest: every other block goes)
+				h.check_state();
+				while(h.live.size() <= per) h.do_alloc(cls, false, -1);
+				h.check_state();
+				while(!h.live.empty()) h.do_free((uint32_t)h.live.size() - 1, h.live.size() & 1);
+				h.check_state();
+			});
+		}
+		return E.finish();
+	};
+	inst.replay = [](const std::string &) { return 3; };
+	return inst;
+}
+
 static const int FIX_DEPTH = 1 << 30;
 static std::vector<Instance> instances(const std::string &tier) {
 	bool th = tier == "thorough";
@@ -873,6 +907,7 @@ static std::vector<Instance> instances(const std::string &tier) {
 		IN2(v.push_back(slab_inst<CfgSplit>("split-fix-16-300-513-L2" + sfx, 2, 0, F, {16, 300, 513}, FIX));)
 		IN2(v.push_back(slab_inst<CfgOdd>("odd-fix-8-8192-8193-L2" + sfx, 2, 0, F, {8, 8192, 8193}, FIX));)
 	}
+	if(!c04) { IN0(v.push_back(fill_inst<CfgTinyA>("fill-tinyA", 1 << 20));) IN1(v.push_back(fill_inst<CfgTinyU>("fill-tinyU", 1 << 20));) IN1(v.push_back(fill_inst<CfgTinyNP>("fill-tinyNP", 1 << 20));) IN2(v.push_back(fill_inst<CfgSplit>("fill-split", 1 << 20));) IN3(v.push_back(fill_inst<CfgDefA>("fill-defaultA", th ? 5000 : 1100));) }
 	if(!c04) { IN0(v.push_back(churn_inst<CfgTinyA>("churn-tinyA", true));) IN1(v.push_back(churn_inst<CfgTinyU>("churn-tinyU", true));) IN3(v.push_back(churn_inst<CfgDefA>("churn-defaultA", th));) }
 	if(!c04) { IN0(v.push_back(many_partial_inst<CfgTinyA>("tinyA-six-partial-slabs-all-free-orders", 6));) if(th) { IN0(v.push_back(many_partial_inst<CfgTinyA>("tinyA-seven-partial-slabs-all-free-orders", 7));) } }
 	// the same calls through frg::slab_allocator
